@@ -106,6 +106,27 @@ def run(ctx):
         data = [p for p in rets if p.ret_shape() == "Ok(Frame::Data)"]
         ctx.check(len(data) == 1 and not data[0].has_call(TAKE), "C02-g", dec.key, "DATA returns before the payload reader",
                   "DATA frame path: %s" % [p.ret_shape() for p in data], "")
+        # before the payload reader exists nothing about the frame is known but its type and declared length: the only verdicts there are
+        # `need more bytes`, the two unframed types (DATA, WebTransport stream) and errors reading the header itself. A refusal that
+        # depends on the declared length alone (e.g. "too long for a SETTINGS frame") rejects valid frames - RFC 9114 sets no such limit
+        early = [p for p in rets if not p.has_call(TAKE)]
+        n_early = 0
+        for p in early:
+            sh = p.ret_shape()
+            n_early += 1
+            if sh in ("Err(FrameError::Incomplete)", "Ok(Frame::Data)", "Ok(Frame::WebTransportStream)"):
+                continue
+            if sh.startswith("Residual"):
+                es, _ = ru.residual_error_shapes(ctx, p)
+                okr = es <= {"FrameError::Incomplete", "FrameError::Malformed", "FrameError::InvalidFrameValue"} and \
+                    any(pa.short(pa.source_call(t[3])[0] or "") in ("decode", "get_var", "get") for t in p.tests if t[2] in ("Break", "Err"))
+                ctx.check(okr, "C02-g", dec.key, "before the payload: an error can only come from reading the frame header",
+                          "Frame::decode fails with %s before the payload reader exists, not from reading the type/length varints" % sorted(es), "", None, p.describe())
+                continue
+            ctx.check(False, "C02-g", dec.key, "before the payload: only Incomplete / DATA / WebTransport stream may be answered",
+                      "Frame::decode answers %s on a path that has not yet established that the payload is complete (tests: %s): a verdict that depends on "
+                      "the declared length alone refuses well-formed frames" % (sh, [(t[1][:50], t[2]) for t in p.tests][-2:]), "", None, p.describe())
+        ctx.floor("C02-g", "returns of Frame::decode before the payload reader", n_early, 3)
         # C02-c unknown arm
         unk = [p for p in rets if p.ret_shape() == "Err(FrameError::UnknownFrame)"]
         ctx.floor("C02-c", "unknown-frame paths", len(unk), 1)
